@@ -106,6 +106,9 @@ func checkReadersInner(s Src, ctx recorder, wd, wdAlone time.Duration) *vcommon.
 	if s.R != nil && s.R.N >= 100000 {
 		ctx.Class("depth>=1e5")
 	}
+	if beyondParserBound(s.R) {
+		ctx.Class("beyond-parser-bound")
+	}
 	accepted := 0
 	for i, name := range readerNames {
 		rr, o := guardedReader(wd, i, src)
@@ -124,6 +127,10 @@ func checkReadersInner(s Src, ctx recorder, wd, wdAlone time.Duration) *vcommon.
 				"the %s reader panicked on %d bytes: %v\nsource: %q\n%s", name, len(src), msg, clip(string(src), 300), clip(o.stack, 3000))
 		}
 		if rr.err == nil && rr.errs == 0 {
+			if beyondParserBound(s.R) {
+				return vcommon.Failf("reader-accepts-beyond-depth-bound/"+name+"/"+key, "the %s reader accepts source nested %d levels deep (documented bound %d) and returns a value that deep instead of a parse error: %s",
+					name, s.R.N, rdparser.DefaultMaxParseDepth, clip(string(src), 120))
+			}
 			accepted++
 			ctx.Class("accepted/" + name)
 		} else {
@@ -145,9 +152,9 @@ func checkReadersInner(s Src, ctx recorder, wd, wdAlone time.Duration) *vcommon.
 // enumReaderMatrix: every nesting unit and every long-token shape at the
 // parser's depth boundary and at the 10^6 extreme (thorough: more sizes).
 func enumReaderMatrix(shard, nshards int, emit func(Src) bool) {
-	sizes := []int{10001, 1000000}
+	sizes := []int{10001, 200000, 1000000}
 	if os.Getenv("VERIF_TIER") == "thorough" {
-		sizes = []int{64, 9999, 10000, 10001, 100000, 1000000}
+		sizes = []int{64, 9999, 10000, 10001, 100000, 200000, 1000000}
 	}
 	i := 0
 	out := func(r Recipe) bool {
@@ -160,6 +167,15 @@ func enumReaderMatrix(shard, nshards int, emit func(Src) bool) {
 	}
 	for v := range nestUnits {
 		for _, n := range sizes {
+			if !out(Recipe{T: "nest", V: v, N: n}) {
+				return
+			}
+		}
+	}
+	// bracket-free prefix chains: the whole 4 MB is nesting (buildRecipe caps
+	// n so that the source stays within maxSourceBytes)
+	for _, v := range prefixChainUnits {
+		for _, n := range []int{2000000, 4000000} {
 			if !out(Recipe{T: "nest", V: v, N: n}) {
 				return
 			}
